@@ -6,6 +6,7 @@ From PV Require Import Extract.RunC19.
 From PV Require Import Extract.RunC12.
 From PV Require Import Extract.RunC09.
 From PV Require Import Extract.RunC13.
+  Validators.TableStruct Extract.Codec Extract.RunC06.
 Import ListNotations.
 Local Open Scope N_scope.
 
@@ -84,5 +85,10 @@ Definition run (cmd : N) (arg : sx) : sx :=
   | 134 => run_c13_4 arg
   | 135 => run_c13_5 arg
   | 136 => run_c13_6 arg
+  | 60 => run_c06_reduce arg
+  | 61 => run_c06_climb arg
+  | 62 => run_c06_opm arg
+  | 63 => run_c06_dec arg
+  | 64 => run_c06_prec_ok arg
   | _ => L [A 999999]
   end.
